@@ -399,16 +399,16 @@ def rule_wrap(ctx):
     sb = m.classes['scbuiltin']
     un = sb.methods['unop']
     inner = [n for n in ast.walk(un.node) if isinstance(n, ast.FunctionDef) and n is not un.node]
-    ok = len(inner) == 1 and [norm(s) for s in inner[0].body] == ["if hasattr(x, '_compose_unop'): return x._compose_unop(scbuiltin_)", 'return func(x)']
+    ok = len(inner) == 1 and [norm(s) for s in U.body_nodoc(inner[0])] == ["if hasattr(x, '_compose_unop'): return x._compose_unop(scbuiltin_)", 'return func(x)']
     ctx.ob('C15.wrap', f'{un.fq}:dispatch', ok, 'unary wrapper: operand hook (handed the wrapper itself, so that nested operands are dispatched again), else kernel', un.node, m)
     bn = sb.methods['binop']
     inner = [n for n in ast.walk(bn.node) if isinstance(n, ast.FunctionDef) and n is not bn.node]
     want = ["if hasattr(a, '_compose_binop'): return a._compose_binop(scbuiltin_, b)", "if hasattr(b, '_rcompose_binop'): return b._rcompose_binop(scbuiltin_, a)", 'return func(a, b)']
-    ok = len(inner) == 2 and all([norm(s) for s in i.body] == want for i in inner)
+    ok = len(inner) == 2 and all([norm(s) for s in U.body_nodoc(i)] == want for i in inner)
     ctx.ob('C15.wrap', f'{bn.fq}:dispatch', ok, f'binary wrapper (both variants) must be {want}', bn.node, m)
     na = sb.methods['narop']
     inner = [n for n in ast.walk(na.node) if isinstance(n, ast.FunctionDef) and n is not na.node]
-    ok = len(inner) == 1 and [norm(s) for s in inner[0].body] == ["if hasattr(x, '_compose_narop'): return x._compose_narop(scbuiltin_, *args)", 'return func(x, *args)']
+    ok = len(inner) == 1 and [norm(s) for s in U.body_nodoc(inner[0])] == ["if hasattr(x, '_compose_narop'): return x._compose_narop(scbuiltin_, *args)", 'return func(x, *args)']
     ctx.ob('C15.wrap', f'{na.fq}:dispatch', ok, 'n-ary wrapper: first operand hook, else kernel', na.node, m)
     later = any(isinstance(t, ast.If) and 'args' in norm(t.test) for i in inner for t in ast.walk(i))
     ctx.ob('C15.wrap', f'{na.fq}:reflected', later,
